@@ -272,7 +272,12 @@ func (o *mxOracle) checkSnap(pls map[int]*m3uMedia, bodies map[string]string, ra
 		for _, g := range p.segs {
 			rounded := (g.dur + 50000) / 100000
 			if int64(p.target) < rounded {
-				o.failf("C03 stream %d: TARGETDURATION %d < EXTINF %d (x10us) rounded", si, p.target, g.dur)
+				if g.dur%100000 == 50000 && int64(p.target) == rounded-1 {
+					// the text is exactly x.50000: the muxer rounds the nanosecond value (just below x.5 s), a reader rounds the text
+					o.failf("C03 F26-extinf-half-rounding stream %d: EXTINF %d (x10us) reads x.50000 and rounds to %d, TARGETDURATION is %d (the nanosecond duration is within 5 us below the half)", si, g.dur, rounded, p.target)
+				} else {
+					o.failf("C03 stream %d: TARGETDURATION %d < EXTINF %d (x10us) rounded", si, p.target, g.dur)
+				}
 			}
 			for _, pt := range g.parts {
 				if pt.dur > p.partTarget {
